@@ -25,6 +25,22 @@ impl PingOnDrop {
         ensures *r == self.handle(),
 //@ enditem
 //@ close
+impl PingOnDrop {
+//@ slice src/sources/channel.rs / impl Drop for PingOnDrop / fn drop :: body props=C04 name=PingOnDrop::drop
+//@ sig
+    /// S1 slice: the whole body of `impl Drop for PingOnDrop` as an ordinary method (a Drop impl must be
+    /// `opens_invariants none / no_unwind` for Verus, which Ping::ping does not declare).
+    fn ping_on_drop_body(&mut self)
+//@ spec
+        requires
+            crate::sources::ping::eventfd::may_send(old(self).handle().raw(), 2),
+            crate::rustix::io::may_write(old(self).handle().raw(), crate::sources::ping::eventfd::ne_bytes(2)),
+        ensures
+            // C04 (then exactly one Closed): the guard shared by all clones of a sender wakes the loop when the last of them
+            // goes away -- without this wake-up the loop never looks at the queue again and never sees it disconnected
+            crate::rustix::io::w_write_called(old(self).handle().raw(), crate::sources::ping::eventfd::ne_bytes(2)),
+//@ endslice
+}
 //@ region channel_fullping props=C04
 /// the loop has been woken because a try_send found the queue full (opaque: it IS a write of the wake-up, but callers must
 /// not use it as the wake-up that follows their own enqueue)
